@@ -25,3 +25,21 @@ Print Assumptions C08_reply_on_error_is_error.
 Theorem C08_fail_iff_error : forall f w o, snd (step_f f w o) = false <-> exists e, exec_op f w o = Err e.
 Proof. exact step_f_fail_iff. Qed.
 Print Assumptions C08_fail_iff_error.
+
+(* ---------- no in-flight residue ---------- *)
+From MP.Proofs Require Import ResidueFacts.
+
+(* every transaction of any contract, successful or failed, faulted or not, leaves the engine with
+   no in-flight swap, sent-funds or liquidator record *)
+Theorem C08_no_residue_step : forall f w o, clean (w_eng w) -> clean (w_eng (fst (step_f f w o))).
+Proof. exact step_clean. Qed.
+Print Assumptions C08_no_residue_step.
+
+(* a fresh deployment is clean, hence so is every reachable state *)
+Theorem C08_initial_clean : forall e d w, init_world e d = Ok w -> clean (w_eng w).
+Proof. exact init_world_clean. Qed.
+Print Assumptions C08_initial_clean.
+
+Theorem C08_no_residue_reachable : forall ops w, clean (w_eng w) -> clean (w_eng (run w ops)).
+Proof. exact run_clean. Qed.
+Print Assumptions C08_no_residue_reachable.
